@@ -127,6 +127,20 @@ fn abscissae(run: &Run) -> Vec<(String, Vec<f64>)> {
     }
     v.push(("clustered".into(), vec![-2.0, -1.9375, -1.875, -1.75, 0.0, 0.0625, 1.5, 1.5625, 1.625, 2.0]));
     v.push(("one-sided".into(), (0..12).map(|i| 0.5 + 0.125 * i as f64).collect()));
+    if run.thorough() {
+        // 3000 pseudo-random dyadic point sets (multiples of 2^-8 in [-2,2]) of 7..60 points
+        let mut st = 0x1234_5678_9abc_def1u64;
+        for k in 0..3000usize {
+            let m = 7 + (k * 11) % 54;
+            let mut pts: Vec<f64> = Vec::with_capacity(m);
+            while pts.len() < m {
+                st = st.wrapping_mul(6364136223846793005).wrapping_add(1442695040888963407);
+                let vq = ((st >> 40) % 1025) as f64 / 256.0 - 2.0;
+                pts.push(vq);
+            }
+            v.push((format!("random-dyadic{}", k), pts));
+        }
+    }
     let big = run.tier.pick(200usize, 2000usize);
     for m in [40usize, big, 1000, 1024, 1025, 1500, 2000, 2049] {
         v.push((format!("uniform{}", m), (0..m).map(|i| ((-2.0 + 4.0 * i as f64 / (m - 1) as f64) * 256.0).round() / 256.0).collect()));
@@ -146,6 +160,15 @@ pub fn run(run: &Run) {
         vec![-1.0, 0.0, 1.0],
         vec![0.5, 1.0],
     ];
+    let mut small_sets = small_sets;
+    if run.thorough() {
+        small_sets.push(vec![-2.0, -1.75, -1.0, -0.5, 0.0, 0.25, 1.0, 1.5, 2.0]);
+        small_sets.push(vec![-2.0, -1.0, -0.5, 0.0, 0.125, 0.5, 1.0, 1.25, 1.5, 2.0]);
+        small_sets.push(vec![0.25, 0.5, 0.75, 1.0, 1.25, 1.5, 1.75, 2.0]);
+        small_sets.push(vec![-2.0, -2.0, -1.0, 0.0, 0.0, 1.0, 2.0, 2.0]);
+        small_sets.push(vec![-2.0, -1.5, -1.25, -1.0, -0.5, 0.0, 0.5, 0.75, 1.0, 1.5, 2.0]);
+        small_sets.push(vec![-2.0, -1.75, -1.5, -1.0, -0.75, -0.25, 0.0, 0.5, 1.0, 1.25, 1.75, 2.0]);
+    }
     for x in &small_sets {
         let n = x.len();
         for d in 0..n.min(7) {
@@ -181,7 +204,7 @@ pub fn run(run: &Run) {
                 return;
             }
         };
-        for variant in 0..4 {
+        for variant in 0..run.tier.pick(4usize, 7usize) {
             let truth: Vec<f64> = (0..=d).map(|k| [1.0, -2.0, 0.5, 3.0, -1.0, 0.25, 2.0][(k + variant) % 7]).collect();
             for &scale in &[0.0, 1e-3, 1.0, 1e3] {
                 let y: Vec<f64> = x
@@ -227,8 +250,8 @@ pub fn run(run: &Run) {
     // 2b. repeated abscissae: every multiset over {-2,-1,0,1,2} with multiplicities from {0,1,2,9}
     // (power sums of the abscissae vanish exactly for many asymmetric ones, so the Gram matrix has
     // structural zeros without being checkerboard)
-    par_words(4, 5, |w| {
-        let mult = [0usize, 1, 2, 9];
+    let mult: Vec<usize> = if run.thorough() { vec![0, 1, 2, 3, 9, 40] } else { vec![0, 1, 2, 9] };
+    par_words(mult.len(), 5, |w| {
         let mut x: Vec<f64> = Vec::new();
         for (k, &wi) in w.iter().enumerate() {
             for _ in 0..mult[wi] {
